@@ -37,7 +37,7 @@ def to_xml(node: Node, level: int = 0) -> str:
     attributes = ""
     for attribute in node.attributes:
         attributes += ' {0}="{1}"'.format(
-            attribute, node.attributes[attribute]
+            attribute, escape(str(node.attributes[attribute]), {'"': "&quot;"})
         )
     if level == 0:
         indent = ""
